@@ -424,7 +424,9 @@ func (w *World) checkValue(fm *FileModel, s *Spec, S *Struct, F *Field, path str
 			m := fm.Methods[ft+"."+mn]
 			if m == nil {
 				if len(exp) > 0 {
-					out = append(out, Issue{Rule: "A-REJ", Construct: "definition with constraints has no unmarshaler", Msg: fmt.Sprintf("%s: type %s has no %s although the definition states %d constraint(s)", what, ft, mn, len(exp))})
+					for _, e := range exp {
+						out = append(out, Issue{Rule: "A-REJ", Construct: "missing or misdirected check for " + e.Kw, Msg: fmt.Sprintf("%s: the schema states %s but type %s has no %s at all", what, e.Kw, ft, mn)})
+					}
 				}
 			} else {
 				out = append(out, fm.CompareRejects(w, m, "", exp, false, what+" on type "+ft)...)
@@ -437,11 +439,9 @@ func (w *World) checkValue(fm *FileModel, s *Spec, S *Struct, F *Field, path str
 		m := fm.Methods[S.Name+"."+mn]
 		if m == nil {
 			if len(exp) > 0 {
-				var kws []string
 				for _, e := range exp {
-					kws = append(kws, e.Kw)
+					out = append(out, Issue{Rule: "A-REJ", Construct: "missing or misdirected check for " + e.Kw, Msg: fmt.Sprintf("%s: the schema states %s but %s has no %s at all", what, e.Kw, S.Name, mn)})
 				}
-				out = append(out, Issue{Rule: "A-REJ", Construct: "no unmarshaler although constraints are stated (" + strings.Join(kws, ",") + ")", Msg: fmt.Sprintf("%s: %s has no %s although %d constraint(s) are stated", what, S.Name, mn, len(exp))})
 			}
 			continue
 		}
@@ -554,6 +554,13 @@ func (w *World) checkDefault(fm *FileModel, p *Prop, S *Struct, F *Field, path s
 		okGuard := strings.Contains(a.Init, "raw["+wantKey+"]") && strings.Contains(strings.ReplaceAll(a.Guard, " ", ""), "!ok||v==nil")
 		if !okGuard {
 			out = append(out, Issue{Rule: "A-DEF", Construct: "default guard is not 'key absent or null'", Msg: fmt.Sprintf("%s: the default is applied under `%s; %s`, expected a test that the raw key %s is absent or null", path, a.Init, a.Guard, wantKey)})
+		}
+		if da := p.Spec.Atoms["default"]; da != nil && p.Spec.Default == "scalar" && !strings.Contains(a.Expr, AtomText(da)) {
+			other := "another literal"
+			if h := fm.HoleOf(strings.Trim(a.Expr, "\"")); h != nil {
+				other = "the value of " + h.A.Name
+			}
+			out = append(out, Issue{Rule: "A-DEF", Construct: "assigned literal is not this property's default", Msg: fmt.Sprintf("%s: the field is assigned %s (%s), not the default stated for this property", path, a.Expr, other)})
 		}
 		if m.PlainDecl >= 0 && a.Top < m.PlainDecl {
 			out = append(out, Issue{Rule: "A-DEF", Construct: "default assigned before the typed decode", Msg: fmt.Sprintf("%s: the default is assigned before the typed decode, which then overwrites it", path)})
